@@ -5,10 +5,15 @@ import os
 from .common import Infra, run_vh, last_json
 
 
-def tlc_configs(ctx, cfg, timeout=1800):
+def tlc_configs(ctx, cfg, timeout=1800, module="RunWrapper", simulate=None, depth=None, workers=None):
     dump = os.path.join(ctx.scratch, cfg + ".tlcout")
-    r = ctx.tlc("RunWrapper", cfg=cfg, timeout=timeout, capture_to=dump)
-    r.require_ok()
+    r = ctx.tlc(module, cfg=cfg, timeout=timeout, capture_to=dump, simulate=simulate, depth=depth,
+                seed=(ctx.seed if simulate else None), workers=workers)
+    if simulate:
+        if r.rc != 0 or "Error" in (r.stderr or ""):
+            raise Infra("TLC simulation of %s failed: %s" % (cfg, r.tail(1500)))
+    else:
+        r.require_ok()
     path = os.path.join(ctx.scratch, cfg + ".cases")
     n = 0
     with open(path, "w") as out:
